@@ -495,15 +495,25 @@ func runC10(t *vs.Tape, cfg map[string]string) (res vs.Result) {
 		res.Infra = "corpus: " + err.Error()
 		return
 	}
+	// trees whose database has a crowded signature bucket (many equal-confidence
+	// candidates per function) are mostly used for the commands that consult it
+	crowded := seed%3 == 0
 	cmd := cfg["cmd"]
 	if cmd == "" {
-		cmd = vs.Pick(t, "cmd", "diff", "check", "scan", "diff", "scan")
+		w := []int{2, 1, 2}
+		if crowded {
+			w = []int{1, 3, 3}
+		}
+		cmd = []string{"diff", "check", "scan"}[t.Weighted("cmd", w...)]
 	}
 	backend := vs.Pick(t, "backend", "json", "pebble")
 	exact := t.Chance("scan.exact", 1, 3)
 	threshold := vs.Pick(t, "scan.thr", 0.75, 0.5, 0.9)
 	strict := t.Chance("check.strict", 1, 3)
 	withScan := t.Chance("check.scan", 1, 2)
+	if crowded && !withScan {
+		withScan = t.Chance("check.scan.crowded", 1, 2)
+	}
 	if cmd == "scan" || (cmd == "check" && withScan) {
 		t0 := time.Now()
 		if err := ct.ensureDBs(); err != nil {
